@@ -337,6 +337,20 @@ def _set_terms(node, bound):
         if isinstance(a, (ast.Name, ast.Attribute)):
             return {('nodes1', src(a))}
         return None
+    if isinstance(node, ast.Call) and src(node.func) in ('cls.leaves', 'TokenCategoryHierarchyMapper.leaves', 'self.leaves') and not (node.args and node.keywords):
+        # the leaves below a category: a recognised generator that is NOT the descendants (inner categories are missing)
+        a = node.args[0] if node.args else (node.keywords[0].value if node.keywords else None)
+        if isinstance(a, ast.Name) and a.id in bound:
+            return {('leaves', bound[a.id])}
+        if isinstance(a, (ast.Name, ast.Attribute)):
+            return {('leaves1', src(a))}
+        return None
+    if isinstance(node, ast.BoolOp) and isinstance(node.op, ast.Or) and len(node.values) == 2:
+        # `A or B`: A when it is not empty, otherwise B - contained in the union of both, equal to neither in general
+        l, r = _set_terms(node.values[0], bound), _set_terms(node.values[1], bound)
+        if l is None or r is None:
+            return None
+        return l if not r else (l | r | {('either', src(node)[:60])})
     if isinstance(node, ast.BinOp) and isinstance(node.op, ast.BitOr):
         l, r = _set_terms(node.left, bound), _set_terms(node.right, bound)
         return l | r if l is not None and r is not None else None
